@@ -244,6 +244,63 @@ def gen_case(args):
     return [], calls
 
 
+def gen_caught_case(args):
+    """an enclosing generator catches the failure of an inner generator call and falls back to another cell; afterwards the inner
+    generator, called directly, must report its own error again (not a circular dependency) and, once its cause is repaired, return"""
+    tid, _ = args
+    from ..hd import h
+    state = {"broken": True}
+
+    @h.paramclass
+    class P:
+        a = h.Param(dtype=int, desc="a", default=1)
+
+    @h.generator
+    def Fancy(p: P) -> h.Module:
+        if state["broken"]:
+            raise ValueError("fancy cell unavailable")
+        m = h.Module()
+        m.s = h.Signal()
+        return m
+
+    @h.generator
+    def Plain(p: P) -> h.Module:
+        m = h.Module()
+        m.t = h.Signal()
+        return m
+
+    @h.generator
+    def Wrapper(p: P) -> h.Module:
+        try:
+            cell = Fancy(p)
+        except ValueError:
+            cell = Plain(p)
+        m = h.Module()
+        m.i = cell()
+        return m
+    calls = []
+
+    def one(label, fn, fresh_raises, tainted=True):
+        ev = {"tid": tid, "seq": len(calls) + 1, "label": label, "tainted": tainted, "raised": False, "sig": "", "digest": "", "tops": [],
+              "fresh_raised": fresh_raises, "fresh_sig": "ValueError: fancy cell unavailable" if fresh_raises else "", "fresh_digest": ""}
+        try:
+            mod = fn()
+            pkg = h.to_proto(mod)
+            ev["digest"] = ev["fresh_digest"] = str(len(pkg.modules))
+        except Exception as ex:
+            ev["raised"] = True
+            ev["sig"] = f"{type(ex).__name__}: {str(ex)[:100]}"
+        calls.append(ev)
+    one("first", lambda: Fancy(a=2), True)
+    one("unrelated", lambda: Wrapper(a=1), False, tainted=False)       # catches Fancy(a=1)'s failure inside, falls back
+    one("retry", lambda: Fancy(a=1), True)                              # the call whose failure was caught: its own error again
+    one("retry", lambda: Fancy(a=2), True)
+    state["broken"] = False
+    one("repair_retry", lambda: Fancy(a=1), False)
+    one("repair_retry", lambda: Fancy(a=2), False)
+    return [], calls
+
+
 def run(tier, seed, replay_file=None):
     o = Outcome(PID, tier, seed, level="fault_enumeration")
     o.rule = ("fault sequences: 4 DAG shapes x every module x failure source {exception injected before pass position i, inside pass i after its rewrite "
@@ -283,7 +340,8 @@ def run(tier, seed, replay_file=None):
         out = pool.map(replay, list(enumerate(cases)), chunksize=1)
         base = len(cases)
         gout = pool.map(gen_case, [(base + k, v) for k, v in enumerate(["inner", "outer", "nested"])], chunksize=1)
-    gcases = [{"generator": v} for v in ["inner", "outer", "nested"]]
+        gout += pool.map(gen_caught_case, [(base + 3, "caught")], chunksize=1)
+    gcases = [{"generator": v} for v in ["inner", "outer", "nested", "caught"]]
     traces = [t for t, _ in out]
     calls = [c for _, c in out] + [c for _, c in gout]
     allcases = cases + gcases
@@ -303,7 +361,7 @@ def run(tier, seed, replay_file=None):
         for tid, ok, clause in r.verdicts:
             v2[tid] = (ok, clause)
     if len(v1) != len(cases) or len(v2) != len(allcases):
-        raise tlc.TlcError(f"C08: {len(cases)}+3 cases, {len(v1)} event verdicts, {len(v2)} call verdicts")
+        raise tlc.TlcError(f"C08: {len(cases)}+4 cases, {len(v1)} event verdicts, {len(v2)} call verdicts")
     o.traces = len(allcases)
     o.evaluations = sum(len(c) for c in calls)
     nt = 0
